@@ -384,7 +384,10 @@ class ClassObject(Object, Callable):
     @cached_property
     def bases(self):
         # type: () -> list[CallableProto]
-        return list(filter(None, (self.ctx.evaluate(r) for r in self.scope._bases)))  # type: ignore[misc]
+        # a base may evaluate to anything (a module, an instance, a value
+        # merged from several branches): only classes contribute attributes
+        return [b for b in (self.ctx.evaluate(r) for r in self.scope._bases)  # type: ignore[misc]
+                if isinstance(b, Callable) and hasattr(b, '_attrs')]
 
     @cached_property
     def _attrs(self):
